@@ -79,6 +79,7 @@ class Observer:
         self.extra_vals: list[float] = []
         self.cb_states: list[dict] = []
         self.in_stencil = 0
+        self.nf_plain = 0  # objective calls that are not stencil points
         self.stencil_pts: list[int] = []
 
     # ------------------------------------------------------------------ registry
@@ -118,6 +119,7 @@ class Observer:
                 self.stencil_pts.append(p)
                 self.ev("EvalS", pt=p, exc=False)
             else:
+                self.nf_plain += 1
                 self.fval[p] = float(v)
                 self.ev("EvalF", pt=p, site=site, exc=False, _v=float(v))
             return v
@@ -154,23 +156,37 @@ class Observer:
                 x0c, dc = np.array(x0, copy=True), np.array(d, copy=True)
                 e = obs.ev("LSBegin", pt=obs.pid(x0c), budget=int(max_iter), it0=bool(above_iter == 0),
                            descent=bool(np.dot(g0, d) < 0), _f0=float(f0))
-                nf0 = obs.calls["fun"]
+                nf0 = obs.nf_plain
                 obs.site.append("ls")
                 try:
                     stp = saved["line_search"](x0, f0, g0, d, lb, ub, above_iter, max_steplength_user,
                                                is_boxed, sf, ftol, gtol, xtol, max_iter, *a, **k)
                 except BaseException:
                     obs.site.pop()
-                    obs.ev("LSEnd", ret="exc", pt=0, pos=True, leMax=True, evals=obs.calls["fun"] - nf0)
+                    obs.ev("LSEnd", ret="exc", pt=0, pos=True, leMax=True, evals=obs.nf_plain - nf0)
                     raise
                 obs.site.pop()
                 if stp is None:
                     obs.ev("LSEnd", ret="none", pt=e["pt"], pos=True, leMax=True,
-                           evals=obs.calls["fun"] - nf0)
+                           evals=obs.nf_plain - nf0)
                 else:
                     smax = max_step(x0c, dc, obs.lb, obs.ub, max_steplength_user, above_iter)
-                    obs.ev("LSEnd", ret="step", pt=obs.pid(x0c + stp * dc), pos=bool(stp > 0),
-                           leMax=bool(stp <= smax), evals=obs.calls["fun"] - nf0,
+                    # the accepted point is the trial point of this search that realises the step
+                    # (the code may project x0 + stp*d onto the box; any rounding of it is fine)
+                    tgt = x0c + stp * dc
+                    acc = obs.pid(np.clip(tgt, obs.lb, obs.ub))
+                    best = None
+                    for e2 in reversed(obs.events):
+                        if e2 is e:
+                            break
+                        if e2["e"] == "EvalF" and e2.get("site") == "ls" and not e2["exc"]:
+                            dist = float(np.max(np.abs(obs.arr[e2["pt"]] - tgt) / (1.0 + np.abs(tgt))))
+                            if best is None or dist < best[0]:
+                                best = (dist, e2["pt"])
+                    if best is not None and best[0] <= 1e-12:
+                        acc = best[1]
+                    obs.ev("LSEnd", ret="step", pt=acc, pos=bool(stp > 0),
+                           leMax=bool(stp <= smax), evals=obs.nf_plain - nf0,
                            _stp=float(stp), _smax=float(smax))
                 return stp
 
@@ -201,10 +217,10 @@ class Observer:
                 p = obs.pid(x0)
                 try:
                     g = saved_ad(fun, x0, *a, **k)
-                except BaseException as ex:
+                except BaseException:
+                    # either an injected fault of the objective (already logged by its wrapper) or an
+                    # error of the differentiation routine itself (reaches the caller: `Raised`)
                     obs.in_stencil -= 1
-                    obs.ev("EvalG", pt=p, site=obs.site[-1], exc=True, nst=len(obs.stencil_pts),
-                           _stencil=list(obs.stencil_pts), _exc=repr(ex))
                     raise
                 obs.in_stencil -= 1
                 obs.gval[p] = np.array(g, dtype=float, copy=True)
@@ -441,7 +457,7 @@ def finalize(obs: Observer) -> list[dict]:
             c.setdefault("ckX", 0)
             c["ckMem"] = []
             for e2 in evs[i + 1:]:
-                if e2["e"] == "Start":
+                if e2["e"] in ("Start", "LSBegin", "Return", "Raised"):
                     break
                 if e2["e"] == "MemUpd":
                     c["ckMem"] = list(e2["before"]) if e["cfg"]["ck"] else []
